@@ -89,6 +89,8 @@
   #endif
 #endif
 
+#include "Verif.h"
+
 namespace squids{
   
 class SU_vector;
@@ -98,6 +100,9 @@ class SU_vector;
 namespace detail{
     
 struct SU_vector_operator_access;
+#ifdef SQUIDS_VERIF
+struct verif_access;
+#endif
   
   ///All of the SU_vector operations in ../SU_inc/ are generated in terms
   ///of incmrement operations (+=), but we would like to be able to fuse
